@@ -742,6 +742,7 @@ static void setup(void)
     w_regions_clear();
     MSPT = mc_opt("slow", 0) ? 10 : 1;
     nc_defaults(); NC.csdo = C19_CLIENT ? 2 : 1; NC.freq = 1000 / MSPT;
+    if (mc_opt("pool", 0) > 0) NC.tmr_n = mc_opt("pool", 0);      /* --opt pool=1: a timer pool sized exactly for the one timeout the client needs */
     nc_build();
 #if C19_CLIENT
     pCobTx = &Csdo2CobTx; pCobRx = &Csdo2CobRx; pSrvNode = &Csdo2Node;
